@@ -249,15 +249,6 @@ Real mk(const z3::expr& e0, uint8_t sign, int sq = 0)
         if (v.is_numeral())
             e = v;
     }
-    if (e.is_numeral() && g_concrete)
-    {
-        // concrete replay: exact rational constants become native doubles, so that every later operation (sqrt of a
-        // non-square rational, comparisons) is ordinary double arithmetic instead of a symbolic decision
-        Real r;
-        r.c = e.as_double();
-        r.id = 0;
-        return r;
-    }
     if (e.is_numeral())
         sign = sign_of_numeral(e);
     P->terms.push_back(e);
@@ -1084,6 +1075,16 @@ Real operator/(const Real& a, const Real& b)
         P->events.push_back({"div0", "sat", site_from_backtrace(), scope_str(), "{\"_divisor\":0}"});
         throw PathCut("division of a symbolic value by concrete zero");
     }
+    if (g_concrete && b.id && P->terms[b.id].is_numeral() && P->terms[b.id].as_double() == 0.0 && P->terms[b.id].simplify().is_numeral())
+    {
+        // concrete replay: an exactly-zero rational divisor is the failure a definedness event predicted
+        z3::expr z = (P->terms[b.id] == ctx().real_val(0)).simplify();
+        if (z.is_true())
+        {
+            P->events.push_back({"div0", "sat", site_from_backtrace(), scope_str(), "{\"_divisor\":0}"});
+            throw PathCut("division by an exactly zero value");
+        }
+    }
     definedness_nonzero(b, "div0");
     if (!a.id && a.c == 0)
         return Real(0);
@@ -1239,6 +1240,30 @@ Real sqrt(const Real& a)
         x.id = P->sq_of[a.id];
         x.c = 0;
         return abs(x);
+    }
+    if (P->terms[a.id].is_numeral() && g_concrete)
+    {
+        // concrete replay: exact rational arithmetic is kept as long as possible (an exactly-zero divisor predicted by the solver
+        // must stay exactly zero), but the root of a rational that is not a perfect square becomes an ordinary double instead of a
+        // fresh symbol - in concrete mode nothing may be symbolic
+        z3::expr num = P->terms[a.id].numerator(), den = P->terms[a.id].denominator();
+        int64_t pn = 0, pd = 0;
+        bool perfect = false;
+        if (Z3_get_numeral_int64(ctx(), num, &pn) && Z3_get_numeral_int64(ctx(), den, &pd) && pn >= 0 && pd > 0 && pn < (1LL << 52) && pd < (1LL << 52))
+        {
+            int64_t rn = (int64_t) std::llround(std::sqrt((double) pn)), rd = (int64_t) std::llround(std::sqrt((double) pd));
+            perfect = rn * rn == pn && rd * rd == pd;
+        }
+        if (!perfect)
+        {
+            double v = P->terms[a.id].as_double();
+            if (v < 0)
+            {
+                P->events.push_back({"sqrtneg", "sat", site_from_backtrace(), scope_str(), "{}"});
+                throw PathCut("sqrt of a negative concrete value");
+            }
+            return Real(std::sqrt(v));
+        }
     }
     if (P->terms[a.id].is_numeral())
     {
